@@ -95,6 +95,9 @@ def run(ctx):
     # the two pipelines must recognise copulas/brackets by full matches: the enum look-ahead once accepted a truncated copula at the end of input where the lexical matcher did not (D9)
     import fullmatch
     fullmatch.rule_P_FULLMATCH(ctx)
+    # a bare term that ends in an identifier-only stamp/truth keyword (Han) must reach the term segmenter whole (D11)
+    import suffix
+    suffix.rule_S_SUFFIX(ctx, T)
     ctx.undecided = ["equality of the two pipelines' values on every string (nesting, leniency on malformed input)"]
     ctx.assumptions = ["rustc HIR/name resolution is correct", "nar_dev_utils 0.42.3 dictionary semantics as read from its source"]
     ctx.trusted = ["rustc nightly front end (HIR, typeck)", "mirfacts driver", "python rule layer"]
